@@ -36,7 +36,7 @@ def queries(tier):
     quick = tier == "quick"
     f1 = lambda: HeaderRxHarness(n_packets=1, lead=9, spacing=2, free_enable=True)
     f2 = lambda: HeaderRxHarness(n_packets=2, lead=9, spacing=2, free_enable=True)
-    K1 = 34 if quick else 40
+    K1 = 26 if quick else 40
     calm = {"retry_required": 0, "keepalive": 0, "lxu": 0}
     calm_ready = dict(calm, src_ready=1)
     qs = [Query("bmc_1hp_calm", f1, K1, timeout=2000, split=False, layer=calm_ready, hints={"*": {}},
